@@ -233,10 +233,9 @@ func checkC06(c C06Case, o *Obs) error {
 		}
 		// a *.gz that cannot be opened as gzip (zero bytes; not gzip data) yields an error, no records
 		for _, bad := range [][]byte{{}, []byte("this is not gzip data\n")} {
-			tmpSeq++
-			badPath := filepath.Join(scratchDir(), fmt.Sprintf("bad%d.%s.gz", tmpSeq, c.Format))
+			badPath := filepath.Join(scratchDir(), fmt.Sprintf("bad%d.%s.gz", nextTmp(), c.Format))
 			os.WriteFile(badPath, bad, 0o644)
-			tmpFiles = append(tmpFiles, badPath)
+			trackTemp(badPath)
 			got, over, p := collect(func(cb func(Item) bool) { codec.File(badPath, cb) }, 8)
 			if p != nil {
 				return fmt.Errorf("%s.File(%d-byte file named *.gz that is not gzip data) panicked: %v", c.Format, len(bad), p)
@@ -246,31 +245,30 @@ func checkC06(c C06Case, o *Obs) error {
 			}
 		}
 		// the name the caller passes decides about decompression, also through symbolic links
-		tmpSeq++
-		linkGz := filepath.Join(scratchDir(), fmt.Sprintf("link%d.%s.gz", tmpSeq, c.Format))
-		blob := filepath.Join(scratchDir(), fmt.Sprintf("blob%d", tmpSeq))
+		seqNo := nextTmp()
+		linkGz := filepath.Join(scratchDir(), fmt.Sprintf("link%d.%s.gz", seqNo, c.Format))
+		blob := filepath.Join(scratchDir(), fmt.Sprintf("blob%d", seqNo))
 		if gzData, err := os.ReadFile(gz); err == nil && os.WriteFile(blob, gzData, 0o644) == nil && os.Symlink(blob, linkGz) == nil {
-			tmpFiles = append(tmpFiles, blob, linkGz)
+			trackTemp(blob, linkGz)
 			if err := compare("File(symbolic link named *.gz to gzip data in a file without suffix)", func(cb func(Item) bool) { codec.File(linkGz, cb) }); err != nil {
 				return err
 			}
 		}
-		linkPlain := filepath.Join(scratchDir(), fmt.Sprintf("link%d.%s", tmpSeq, c.Format))
-		plainGzNamed := filepath.Join(scratchDir(), fmt.Sprintf("plain%d.gz", tmpSeq))
+		linkPlain := filepath.Join(scratchDir(), fmt.Sprintf("link%d.%s", seqNo, c.Format))
+		plainGzNamed := filepath.Join(scratchDir(), fmt.Sprintf("plain%d.gz", seqNo))
 		if os.WriteFile(plainGzNamed, text, 0o644) == nil && os.Symlink(plainGzNamed, linkPlain) == nil {
-			tmpFiles = append(tmpFiles, plainGzNamed, linkPlain)
+			trackTemp(plainGzNamed, linkPlain)
 			if err := compare("File(symbolic link without .gz suffix to plain data in a file named *.gz)", func(cb func(Item) bool) { codec.File(linkPlain, cb) }); err != nil {
 				return err
 			}
 		}
 		// a directory is not a readable file either: an error, no records (also when named *.gz)
 		for _, suffix := range []string{"", ".gz"} {
-			tmpSeq++
-			dir := filepath.Join(scratchDir(), fmt.Sprintf("dir%d.%s%s", tmpSeq, c.Format, suffix))
+			dir := filepath.Join(scratchDir(), fmt.Sprintf("dir%d.%s%s", nextTmp(), c.Format, suffix))
 			if os.Mkdir(dir, 0o755) != nil {
 				continue
 			}
-			tmpFiles = append(tmpFiles, dir)
+			trackTemp(dir)
 			got, over, p := collect(func(cb func(Item) bool) { codec.File(dir, cb) }, 8)
 			if p != nil {
 				return fmt.Errorf("%s.File(a directory) panicked: %v", c.Format, p)
@@ -375,6 +373,8 @@ func propC06() Prop[C06Case] {
 func TestC06(t *testing.T) { Run(t, propC06()) }
 
 func FuzzGenC06(f *testing.F) { RunFuzz(f, propC06()) }
+
+func TestRaceC06(t *testing.T) { RunConcurrent(t, propC06(), 4) }
 
 // ---- native fuzz targets (thorough tier) ------------------------------------------------
 
